@@ -180,6 +180,8 @@ class Scheduler(Recorder):
                     return
                 role, tok = self.steps[self.idx]
                 mine = "env" if env else self._role()
+                if mine == "c" and token in ("empty", "alive") and (role, tok) == ("c", "got"):
+                    return   # spurious timeout while the granted put is still in flight: a stuttering step of the model
                 ok = False
                 if tok == token:
                     if mine is not None and mine == role:
